@@ -32,7 +32,9 @@ func floatAtoms(p *Path) []floatAtom {
 			continue
 		}
 		if _, isC := x.IsConst(); isC {
-			x, y, op = y, x, flipOp(op)
+			if _, yC := y.IsConst(); !yC { // (both constant: a decided comparison, the threshold is the right operand)
+				x, y, op = y, x, flipOp(op)
+			}
 		}
 		v, isC := y.IsConst()
 		if !isC || (v.Kind() != constant.Float && v.Kind() != constant.Int) {
@@ -103,8 +105,8 @@ func checkC08(c *Ctx) {
 			return dest == "Analog.Note" || dest == "Analog.NoteNeg" || dest == "Analog.Bidirectional"
 		})
 	}
-	c.importRules(configIntactRules, []string{"R3.7"}, "R8.10") // axis mappings (notes, offsets) are read from an unmodified copy of the parsed configuration
-	c.importRules(repetitionRules, []string{"R6.17", "R6.4"}, "R8.11")  // the first report of an axis is not dropped as a repetition of a position it never reported
+	c.importRules(configIntactRules, []string{"R3.7"}, "R8.10")        // axis mappings (notes, offsets) are read from an unmodified copy of the parsed configuration
+	c.importRules(repetitionRules, []string{"R6.17", "R6.4"}, "R8.11") // the first report of an axis is not dropped as a repetition of a position it never reported
 	c.MinCount("R8.1", 5)
 	c.MinCount("R8.4", 1)
 	c.MinCount("R8.5", 3)
@@ -389,6 +391,11 @@ func ruleKeyEmulationTemplate(c *Ctx, dv *dev) {
 				key = "device.handleABSEvent/key/positive-band"
 				if len(offs) != 1 || offs[0] != negID {
 					bad = "between 49 % and half travel of the positive side exactly the negative direction must be released, got " + desc()
+					if os.Getenv("HIDI_DEBUG") == "R8.1" {
+						for _, fa := range fas {
+							fmt.Fprintln(os.Stderr, "   fa", fa.op, fa.k, truncate(fa.term, 100))
+						}
+					}
 				}
 			case negBand:
 				key = "device.handleABSEvent/key/negative-band"
@@ -609,6 +616,28 @@ func checkC07(c *Ctx) {
 			}
 		}
 		k := fmt.Sprintf("device.handleABSEvent/cc/bidirectional[centred=%v,side=%s]", centred, side)
+		// a path on which the position is known to be the rest value (inside the deadzone, where the position travels in
+		// memory and is the constant 0 on the path): the comparison with the threshold is decided, not a path condition.
+		// The side is the one whose controller is sent; the bookkeeping of the other side is judged as on any path.
+		atRest := false
+		if side == "" && len(sends) > 0 && sends[0].ok && sends[0].Kind == midiCC {
+			for _, e := range p.Effects {
+				if e.Kind == "mapset" && e.Args[0].Op == "lookup" && dv.isFieldLoad(e.Args[0].Args[0], "lastAnalogValue") {
+					if kk, isK := e.Args[2].IsConst(); isK && kk != nil && (kk.Kind() == constant.Float || kk.Kind() == constant.Int) && constant.Sign(kk) == 0 {
+						atRest = true
+					}
+				}
+			}
+			if atRest {
+				switch {
+				case analogField(sends[0].B1, "CC"):
+					side = "pos"
+				case analogField(sends[0].B1, "CCNeg"):
+					side = "neg"
+				}
+				k = fmt.Sprintf("device.handleABSEvent/cc/bidirectional[rest,side=%s]", side)
+			}
+		}
 		if side == "" {
 			note("device.handleABSEvent/cc/bidirectional[side?]", "a bidirectional cc path does not select a side by comparing the value with 0 (signed) or 0.5 (centred unsigned)")
 			continue
@@ -633,6 +662,8 @@ func checkC07(c *Ctx) {
 			}
 		} else if ccChannelSide(dv, sends[0].Channel) != side {
 			bad = fmt.Sprintf("controller of the %s side is sent on the other side's channel (%s)", side, sends[0].Channel)
+		} else if atRest {
+			// (the value is 127*|0|: nothing to say about its shape)
 		} else if _, isConst := sends[0].B2.IsConst(); isConst {
 			bad = "the active side's value is a constant"
 		} else if !strings.Contains(sends[0].B2.String(), "math.Abs") {
